@@ -193,10 +193,25 @@ type minimizer struct {
 	runs int
 }
 
-func (m *minimizer) kindOf(q *query, ordered bool) string {
+// kindOf judges a candidate from a cold cache. When the oracle's outcome alone already rules out the wanted
+// kind (DuckDB rejects the candidate but the kind needs its answer, or the reverse) Arc is not executed.
+func (m *minimizer) kindOf(q *query, ordered bool, want string) string {
 	key := q.Hdr + "\x00" + strconv.FormatBool(ordered) + "\x00" + q.SQL()
 	if k, ok := m.memo[key]; ok {
 		return k
+	}
+	sqlText := q.SQL()
+	okey := "o\x00" + q.Hdr + "\x00" + sqlText
+	ok, seen := m.memo[okey]
+	if !seen {
+		ok = "fails"
+		if m.w.askOracle(sqlText, q.Hdr).OK {
+			ok = "answers"
+		}
+		m.memo[okey] = ok
+	}
+	if want != "" && (ok == "answers") == strings.Contains(want, "arc-answers-duckdb-fails") {
+		return "?duckdb-" + ok
 	}
 	m.runs++
 	m.w.handler.InvalidateCaches() // first execution must be cold
@@ -221,8 +236,29 @@ func simpleIdent(s string) bool {
 	return true
 }
 
-// simpler lists replacement candidates for one token, simplest first.
-func simpler(tok string) []string {
+var keywordSet = func() map[string]bool {
+	set := map[string]bool{}
+	for _, t := range templates {
+		toks, _ := tokenize(strings.NewReplacer("{", " ", "}", " ", ":", " ").Replace(t.Text))
+		for _, tk := range toks {
+			if isKeyword(tk) {
+				set[tk] = true
+			}
+		}
+	}
+	for _, k := range joinKinds {
+		for _, w := range strings.Fields(k.Words) {
+			set[w] = true
+		}
+	}
+	return set
+}()
+
+// simpler lists replacement candidates for token i, simplest first: any table spelling -> cpu (then mem), any
+// name in table position -> cpu / mem, a string literal -> 'a', a quoted identifier -> unquoted, a keyword ->
+// upper case, a quoted or mixed-case column reference -> plain.
+func simpler(toks []string, i int) []string {
+	tok := toks[i]
 	var out []string
 	add := func(s string) {
 		if s != tok {
@@ -234,18 +270,25 @@ func simpler(tok string) []string {
 			out = append(out, s)
 		}
 	}
+	isRef := tok == "Disk_IO" || tok == `"Disk_IO"` || tok == "prod.Disk_IO"
 	for _, sp := range spellings {
 		for _, m := range []string{"cpu", "mem"} {
-			if tok == sp.Text(m) && !strings.Contains(tok, "~") {
-				add("cpu")
-				add("mem")
-				add(m)
+			if tok == sp.Text(m) {
+				isRef = true
 			}
 		}
 	}
-	if tok == "Disk_IO" || tok == `"Disk_IO"` || tok == "prod.Disk_IO" {
+	if i > 0 && tok != "(" && (simpleIdent(tok) || tok[0] == '"') && !keywordSet[strings.ToUpper(tok)] {
+		switch strings.ToUpper(toks[i-1]) {
+		case "FROM", "JOIN", "LATERAL":
+			isRef = true
+		}
+	}
+	if isRef && tok != "cpu" {
 		add("cpu")
-		add("mem")
+		if tok != "mem" {
+			add("mem")
+		}
 	}
 	if len(tok) >= 2 && tok[0] == '\'' {
 		add("'a'")
@@ -256,7 +299,7 @@ func simpler(tok string) []string {
 		}
 		add("x")
 	}
-	if up := strings.ToUpper(tok); up != tok && isKeyword(up) {
+	if up := strings.ToUpper(tok); up != tok && keywordSet[up] && !simpleIdentLower(tok) {
 		add(up)
 	}
 	if j := strings.LastIndex(tok, "."); j > 0 && tok[0] != '"' && tok[0] != '\'' {
@@ -270,6 +313,16 @@ func simpler(tok string) []string {
 	return out
 }
 
+// simpleIdentLower: an all-lower-case word that the templates use as a column (hour, day, time ...) and that
+// must not be mistaken for a lower-cased keyword when it is also a keyword in upper case.
+func simpleIdentLower(tok string) bool {
+	switch tok {
+	case "hour", "minute", "day", "year", "time", "true", "host", "note":
+		return true
+	}
+	return false
+}
+
 var canonicalGaps = []string{"\n", "/*c*/", "--c\n", "\t"}
 
 // reduce applies the cheap, order-independent simplifications: header off, every gap back to its default (or
@@ -277,7 +330,7 @@ var canonicalGaps = []string{"\n", "/*c*/", "--c\n", "\t"}
 func (m *minimizer) reduce(q *query, kind string) *query {
 	cur := q.clone()
 	try := func(c *query) bool {
-		if m.kindOf(c, false) == kind {
+		if m.kindOf(c, false, kind) == kind {
 			cur = c
 			return true
 		}
@@ -309,7 +362,7 @@ func (m *minimizer) reduce(q *query, kind string) *query {
 		}
 	}
 	for i := 0; i < len(cur.Toks); i++ {
-		for _, s := range simpler(cur.Toks[i]) {
+		for _, s := range simpler(cur.Toks, i) {
 			c := cur.clone()
 			c.Toks[i] = s
 			if try(c) {
@@ -350,7 +403,7 @@ func (m *minimizer) minimize(q *query, kind string) *query {
 			if len(cand) == 0 {
 				return false
 			}
-			return m.kindOf(pick(base, cand), false) == kind
+			return m.kindOf(pick(base, cand), false, kind) == kind
 		})
 		next := m.reduce(pick(base, keep), kind)
 		if len(next.Toks) == len(cur.Toks) && next.SQL() == cur.SQL() && next.Hdr == cur.Hdr {
@@ -466,6 +519,8 @@ func main() {
 		return
 	}
 
+	// the worker processes stop a quarter of the budget before the deadline: classification needs the rest
+	childDeadline := run.Deadline.Add(-time.Until(run.Deadline) / 4)
 	nProcs := 16
 	if n, err := strconv.Atoi(os.Getenv("VERIF_C16_WORKERS")); err == nil && n > 0 {
 		nProcs = n
@@ -479,7 +534,7 @@ func main() {
 	var childErr atomic.Value
 	for k := 0; k < nProcs; k++ {
 		cmd := exec.Command(self, run.Tier)
-		cmd.Env = append(os.Environ(), fmt.Sprintf("VERIF_C16_CHILD=%d/%d/%d", k, nProcs, run.Deadline.Unix()), "VERIF_C16_SCRATCH="+scratch,
+		cmd.Env = append(os.Environ(), fmt.Sprintf("VERIF_C16_CHILD=%d/%d/%d", k, nProcs, childDeadline.Unix()), "VERIF_C16_SCRATCH="+scratch,
 			"VERIF_C16_STORE="+store, fmt.Sprintf("VERIF_SEED=%d", run.Seed), "VERIF_TIER="+run.Tier)
 		cmd.SysProcAttr = &syscall.SysProcAttr{Pdeathsig: syscall.SIGKILL}
 		var stderr bytes.Buffer
@@ -573,19 +628,13 @@ func main() {
 		}
 		return nil
 	}
-	unclassified := 0
 	for _, f := range fails {
 		kindHist[f.Kind]++
 		if c := find(f.Q, f.Kind); c != nil {
 			c.Count++
 			continue
 		}
-		if run.TimeUp() {
-			unclassified++
-			complete = false
-			continue
-		}
-		if k := mz.kindOf(f.Q, f.Q.Ordered); k != f.Kind {
+		if k := mz.kindOf(f.Q, f.Q.Ordered, ""); k != f.Kind {
 			cleanup()
 			ev.Nondeterminism(fmt.Sprintf("%q (header %q): a worker process reported %q, the replay in the main process %q", showSQL(f.Q.SQL()), f.Q.Hdr, f.Kind, k))
 		}
@@ -617,6 +666,7 @@ func main() {
 		classes = append(classes, c)
 		bySig[sig] = c
 	}
+	tClass := time.Since(tStart) - tEnum
 	for _, c := range classes {
 		desc := fmt.Sprintf("%s; first enumerated instance: %s [header %q, family %s, template %s]", c.Detail, showSQL(c.First.Q.SQL()), c.First.Q.Hdr, c.First.Q.Fam, c.First.Q.Tmpl)
 		rep := map[string]any{"sql": c.Min.SQL(), "header": c.Min.Hdr, "kind": c.Kind, "first_instance_sql": c.First.Q.SQL(), "first_instance_header": c.First.Q.Hdr}
@@ -654,18 +704,18 @@ func main() {
 		"cold_state_not_reached": counters["cache_cold_state_not_reached"], "warm_state_not_reached": counters["cache_warm_state_not_reached"]}
 	run.Coverage["failing_cases_before_minimisation"] = len(fails)
 	run.Coverage["violated_oracles_before_minimisation"] = kindHist
-	run.Coverage["failing_cases_left_unclassified_at_deadline"] = unclassified
 	run.Coverage["minimisation_runs"] = mz.runs
 	run.Coverage["dataset_rows"] = nrows
 	run.Coverage["samples"] = samples
-	run.Coverage["exhaustive"] = complete && int(counters["evaluations"]) == total
+	run.Coverage["exhaustive"] = complete && int(counters["evaluations"]) == total && os.Getenv("VERIF_C16_FILTER") == ""
 	run.Coverage["worker_processes"] = nProcs
 	run.Coverage["enumeration_s"] = tEnum.Seconds()
+	run.Coverage["classification_s"] = tClass.Seconds()
 	run.Assume("the oracle is a plain DuckDB (database/sql + duckdb driver, same library version as Arc's) with one view per measurement over exactly the stored Parquet files (read_parquet([...], union_by_name=true)); without the header unqualified names are the measurements of database \"default\" (Arc's rule) and both databases are schemas; with x-arc-database: prod unqualified names are prod's measurements")
 	run.Assume("compared: columns, data (cell values by value: numbers numerically, timestamps as instants, NULL), row_count, and success/failure; never execution_time_ms, timestamp or error text (response encoding is C19's business). Arc runs with threads=1 and preserve_insertion_order=true so that POSITIONAL JOIN is deterministic on both sides")
 	run.Assume("outside the grammar: time_bucket/date_trunc/regex/LIKE rewrites (C17), time-literal predicates and partition pruning (C18), db-qualified references together with the header (rejected by design), a measurement referenced in a different letter case than it is stored under (Arc's measurement names are case-sensitive directory names), more than two tables, aggregates over non-integer doubles, S3/Azure backends, tiering, RBAC")
-	fmt.Printf("C16 cases=%d judged=%d nontrivial=%d distinct_answers=%d both_fail=%d cache(cold+warm=%d not-consulted=%d) failing=%d classes=%d minimisation_runs=%d enumeration=%.1fs\n",
-		total, counters["evaluations"], counters["nontrivial"], len(hashes), counters["both_fail"], counters["cache_cold_then_warm"], counters["cache_not_consulted"], len(fails), len(classes), mz.runs, tEnum.Seconds())
+	fmt.Printf("C16 cases=%d judged=%d nontrivial=%d distinct_answers=%d both_fail=%d cache(cold+warm=%d not-consulted=%d) failing=%d classes=%d minimisation_runs=%d enumeration=%.1fs classification=%.1fs\n",
+		total, counters["evaluations"], counters["nontrivial"], len(hashes), counters["both_fail"], counters["cache_cold_then_warm"], counters["cache_not_consulted"], len(fails), len(classes), mz.runs, tEnum.Seconds(), tClass.Seconds())
 	if len(hashes) < 2 {
 		fmt.Println("C16 VACUITY WARNING: fewer than two distinct answers")
 	}
